@@ -124,17 +124,27 @@ def sig_of(b):
 
 
 def compare_m(ctx, case, mobs):
-    """Layer-M diagnostics: the model's summary at every quiescent point vs. the real serverConn."""
+    """Layer-M diagnostics: the model's summary at every quiescent point vs. the real serverConn.
+    Which of two streams with queued DATA the scheduler serves first is a Go map-iteration choice:
+    from the first quiescent point at which two streams are blocked on the shared connection window,
+    only the connection-level numbers are compared."""
     exp = case.get("expM") or []
     by_step = {m["step"]: m for m in mobs if m["step"] > 0}
-    skipped = [m for m in mobs if m["step"] < 0]
-    if skipped:
-        return "handler command skipped at step %d (handler not idle)" % -skipped[0]["step"]
+    amb = None
+    for i, m in enumerate(exp):
+        if isinstance(m, dict) and sum(1 for x in m["q"] if x > 0) > 1:
+            amb = i + 1
+            break
+    skipped = [-m["step"] for m in mobs if m["step"] < 0]
+    if skipped and (amb is None or skipped[0] <= amb):
+        return "handler command skipped at step %d (handler not idle)" % skipped[0]
     stname = {"Open": "open", "HalfClosedRemote": "hcr"}
     for i, m in enumerate(exp):
         o = by_step.get(i + 1)
         if o is None or not isinstance(m, dict):
             continue
+        if skipped and i + 1 >= skipped[0]:
+            return None
         if o["done"] != (m["conn"] != "up"):
             return "step %d: connection %s, model %s" % (i + 1, "ended" if o["done"] else "up", m["conn"])
         if o["done"]:
@@ -144,8 +154,9 @@ def compare_m(ctx, case, mobs):
         live = {str(s + 1): m["st"][s] for s in range(len(m["st"])) if m["st"][s] in ("open", "hcr")}
         real = {s: stname.get(v["st"], v["st"]) for s, v in o["streams"].items()}
         if live != real:
+            if amb is not None and i + 1 >= amb:
+                return None
             return "step %d: streams real %s model %s" % (i + 1, real, live)
-        busy = [s for s in live if m["q"][int(s) - 1] > 0]
         for s in live:
             k = int(s) - 1
             v = o["streams"][s]
@@ -153,9 +164,43 @@ def compare_m(ctx, case, mobs):
                 return "step %d: stream %s inflow real %d model %d" % (i + 1, s, v["in"], m["inS"][k])
             if v["buf"] != m["buf"][k]:
                 return "step %d: stream %s buffered real %d model %d" % (i + 1, s, v["buf"], m["buf"][k])
-            if len(busy) <= 1 and v["out"] != m["outS"][k]:
+            if (amb is None or i + 1 < amb) and v["out"] != m["outS"][k]:
                 return "step %d: stream %s flow real %d model %d" % (i + 1, s, v["out"], m["outS"][k])
     return None
+
+
+TRACE_CHUNK = 6000     # events per TLC trace-validation run
+TRACE_PAR = 4
+
+
+def validate(ctx, events, label):
+    """Fold Layer P (TraceConn) over the recorded events; connections are independent, so the
+    trace is cut at connection boundaries and the pieces are validated by parallel TLC runs."""
+    import concurrent.futures
+    chunks, cur, last = [], [], None
+    for e in events:
+        if e["ev"] == "init" and len(cur) >= TRACE_CHUNK:
+            chunks.append(cur)
+            cur = []
+        cur.append(e)
+    if cur:
+        chunks.append(cur)
+
+    def one(ch):
+        trace = "".join(json.dumps(e, separators=(",", ":")) + "\n" for e in ch)
+        r = ctx.tlc(SPEC, "TraceConn", "TraceConn.cfg", mode="trace", timeout=2400,
+                    extra_files={"trace.ndjson": trace}, count=False)
+        rep = [c for c in r.cases if c.get("done")]
+        if not r.ok or not rep or rep[0]["consumed"] != len(ch):
+            raise vlib.MachineryError("trace validation did not complete (%s): %s %s" %
+                                      (label, r.error or r.violation, r.out[-800:]))
+        return rep[0]["bad"]
+
+    out = []
+    with concurrent.futures.ThreadPoolExecutor(max_workers=TRACE_PAR) as ex:
+        for bad in ex.map(one, chunks):
+            out.extend(bad)
+    return out
 
 
 def run_cases(ctx, cases, decisive, label):
@@ -174,18 +219,12 @@ def run_cases(ctx, cases, decisive, label):
         if r.get("m"):
             mobs.setdefault(r["cid"], []).append(r)
     panics = {r["cid"]: r["text"] for r in res if r.get("panic")}
-    trace = "".join(json.dumps(e, separators=(",", ":")) + "\n" for e in events)
-    r = ctx.tlc(SPEC, "TraceConn", "TraceConn.cfg", mode="trace", timeout=1500,
-                extra_files={"trace.ndjson": trace}, count=False)
-    rep = [c for c in r.cases if c.get("done")]
-    if not r.ok or not rep or rep[0]["consumed"] != len(events):
-        raise vlib.MachineryError("trace validation did not complete (%s): %s %s" %
-                                  (label, r.error or r.violation, r.out[-800:]))
+    allbad = validate(ctx, events, label)
     ctx.traces(len(cases))
     by_id = {c["id"]: c for c in cases}
     nbad = 0
     hangs = []
-    for b in sorted(rep[0]["bad"], key=lambda b: (b["cid"], b["l"])):
+    for b in sorted(allbad, key=lambda b: (b["cid"], b["l"])):
         pr = prop_of(b)
         if pr == "hang":
             hangs.append(b)
@@ -206,7 +245,7 @@ def run_cases(ctx, cases, decisive, label):
         raise vlib.MachineryError("%d case(s) did not reach quiescence within the timeout (e.g. case %s)" %
                                   (len(hangs), by_id[hangs[0]["cid"]]["steps"]))
     ndrift, ex = 0, None
-    badc = {b["cid"] for b in rep[0]["bad"]}
+    badc = {b["cid"] for b in allbad}
     for c in cases:
         if c["id"] in badc:
             continue
@@ -243,11 +282,11 @@ U = 13107   # 65535 / 5: five of these fill the connection receive window exactl
 
 def check_c33(ctx):
     q = ctx.tier == "quick"
-    mc = {"MAXSID": 3, "SIDS": "{1,3}", "STEPS": 4 if q else 6}
+    mc = {"MAXSID": 3, "SIDS": "{1,3}", "STEPS": 4 if q else 5}
     ctx.cov["constants"]["MC_Conn33"] = mc
     ctx.tlc_must_pass(SPEC, "ConnMC", "MC_Conn33.cfg", defines=mc, timeout=2400, coverage=not q)
     cases = []
-    for sw, num in ((3 * U, 200 if q else 3000), (65535, 80 if q else 1000)):
+    for sw, num in ((3 * U, 480 if q else 2400), (65535, 160 if q else 800)):
         g = defs(SW0=sw, KINDS='{"HEADERS","DATA","RST"}', REQS='{"post","get"}',
                  DATALENS="{0,1,%d,%d,%d,%d}" % (U, 2 * U, 3 * U, 3 * U + 1), PADS="{0,1,256}", CLS="ClSome",
                  HOPS='{"read","ret","write","closebody"}', READLENS="{1,%d,65535}" % U, STEPS=9, MINSTEPS=6,
@@ -263,11 +302,11 @@ def check_c33(ctx):
 
 def check_c34(ctx):
     q = ctx.tier == "quick"
-    mc = {"MAXSID": 3, "SIDS": "{1,3}", "STEPS": 4 if q else 6}
+    mc = {"MAXSID": 3, "SIDS": "{1,3}", "STEPS": 4 if q else 5}
     ctx.cov["constants"]["MC_Conn34"] = mc
     ctx.tlc_must_pass(SPEC, "ConnMC", "MC_Conn34.cfg", defines=mc, timeout=2400, coverage=not q)
     cases = []
-    for osw, num in ((32768, 160 if q else 2500), (0, 60 if q else 1000), (65535, 40 if q else 500)):
+    for osw, num in ((32768, 400 if q else 2000), (0, 120 if q else 600), (65535, 80 if q else 400)):
         g = defs(OSW0=osw, KINDS='{"HEADERS","WU","SETTINGS","RST"}', REQS='{"get"}',
                  WUINCS="{1,16384,32768}", IWS="IwsFlow", MFS="MfsFlow",
                  HOPS='{"write","hdr","ret"}', WRITELENS="{1,16384,32768,49152,65536}", STEPS=10, MINSTEPS=6,
@@ -297,7 +336,7 @@ def check_c35(ctx):
              DATALENS="{0,1,%d}" % U, PADS="{0,1}", WUINCS="{0,1,2147483647}", IWS="IwsAll", MFS="MfsAll",
              HOPS='{"read","write","ret"}', STEPS=7, MINSTEPS=3, MAXHDRS=5, HEAVY='{"HEADERS"}', FIRSTH="FALSE")
     ctx.cov["constants"]["Gen_C35"] = g
-    cases += gen(ctx, g, 300 if q else 6000, 150, "C35")
+    cases += gen(ctx, g, 600 if q else 4000, 150, "C35")
     # every sequence of 2 (thorough: 3, the first one opening a stream) stimuli over a smaller alphabet
     gx = defs(MAXS=2, SIDS="{1,3}", KINDS='{"HEADERS","NEH","DATA","RST","WU","SETTINGS","PING","CONT"}',
               REQS='{"get","post","upper","connhdr"}', TRAILERS='{"trailers"}', DATALENS="{1}", PADS="{0}",
@@ -474,7 +513,7 @@ def check_c37(ctx):
     g = {"ESCAPE": FLOOD_ESCAPE, "BURSTS": "{1,2,4000,5000,6000,9999,10001,%d}" % (10001 + FLOOD_ESCAPE),
          "KINDS": '{"PING","WU0","DATAC","SETTINGS"}', "STEPS": 3}
     ctx.cov["constants"]["Gen_ConnFlood"] = dict(g, Limit=10000)
-    r = ctx.tlc(SPEC, "ConnFlood", "Gen_ConnFlood.cfg", mode="sim", sim_num=60 if q else 400, sim_depth=6,
+    r = ctx.tlc(SPEC, "ConnFlood", "Gen_ConnFlood.cfg", mode="sim", sim_num=100 if q else 500, sim_depth=6,
                 defines=g, timeout=900, count=False)
     if not r.ok:
         raise vlib.MachineryError("ConnFlood generator failed: %s %s" % (r.error or r.violation, r.out[-600:]))
